@@ -249,6 +249,7 @@ type stdioTransport struct {
 	logger      Logger
 	contextFunc StdioContextFunc
 	session     *stdioSession
+	writeMu     sync.Mutex // Serializes frames written to stdout by concurrent goroutines.
 }
 
 // stdioServerTransportOption configures a stdioTransport.
@@ -520,6 +521,10 @@ func (s *stdioTransport) writeResponse(response interface{}, writer io.Writer) e
 	if err != nil {
 		return fmt.Errorf("error marshaling response: %w", err)
 	}
+
+	// A frame is two writes (payload, newline); they must not interleave with another frame.
+	s.writeMu.Lock()
+	defer s.writeMu.Unlock()
 
 	if _, err := writer.Write(data); err != nil {
 		return fmt.Errorf("error writing response: %w", err)
